@@ -43,6 +43,30 @@ _PASS = ('std::result::Result::<T, E>::map_err', 'std::result::Result::<T, E>::o
 _INTS = ('u8', 'u16', 'u32', 'u64', 'usize')
 
 
+def _counter_like(fn, local, ds):
+    """Some definition computes the new value from the old one (`v = v + k` through a checked-arithmetic temporary)."""
+    for (b, i, kind, node) in ds:
+        if kind != 'assign':
+            continue
+        rv = node['rv']
+        ops = []
+        if rv['k'] == 'bin':
+            ops = [rv['a'], rv['b']]
+        elif rv['k'] == 'use' and is_place(rv['op']) and rv['op']['pl']['p']:
+            sd = fn.single_def(rv['op']['pl']['l'])
+            if sd and sd[2] == 'assign' and sd[3]['rv']['k'] == 'bin':
+                ops = [sd[3]['rv']['a'], sd[3]['rv']['b']]
+        for o in ops:
+            if is_place(o):
+                c = fn.canon(o['pl'])
+                if c['l'] == local and not c['p']:
+                    return True
+                sd = fn.single_def(o['pl']['l']) if not o['pl']['p'] else None
+                if sd and sd[2] == 'assign' and sd[3]['rv']['k'] == 'use' and is_place(sd[3]['rv']['op']) and sd[3]['rv']['op']['pl']['l'] == local and not sd[3]['rv']['op']['pl']['p']:
+                    return True
+    return False
+
+
 def trace(fn, local, path, seen=None, depth=0, at=None):
     """Leaves (see module doc) for the value at `local` projected by `path` (normalised path list)."""
     seen = seen if seen is not None else set()
@@ -54,7 +78,7 @@ def trace(fn, local, path, seen=None, depth=0, at=None):
         return [('param', local, list(path))]
     out = []
     ds = [d for d in fn.defs().get(local, []) if not fn.blocks[d[0]]['cleanup']]
-    if not path and len(ds) > 1 and fn.local_ty(local) in _INTS and at is not None:
+    if not path and len(ds) > 1 and fn.local_ty(local) in _INTS and at is not None and _counter_like(fn, local, ds):
         # a counter: its value here is whatever it holds at this read; prove the bound at the read itself
         return [('rv', at[0], at[1], {'k': 'use', 'op': {'k': 'copy', 'pl': {'l': local, 'p': [], 'ty': fn.local_ty(local)}}})]
     if 1 <= local <= fn.argc:
